@@ -170,3 +170,29 @@ def post_parse_rgb_string(r):
     if r.expected is None:
         return r.result is None
     return r.result is not None and texts(r.result) == r.expected
+
+
+# ------------------------------------------------------------------------------------------ S2 / S6: rejection, mixtures
+def post_never_returns(r):
+    """the call is documented to be rejected: reaching a normal return is the violation"""
+    return False
+
+
+def raises_only_expected(r):
+    return r.exc == r.expected_exc
+
+
+def post_scrub_concat(r):
+    """[a, b] (and 'a;b' for two string directives) yields the settings of a followed by the settings of b"""
+    return texts(r.result) == r.expected
+
+
+def post_scrub_unique_mix(r):
+    """make_unique=True: no setting object of the result is one of the objects handed in"""
+    if not r.make_unique:
+        return True
+    for s in r.result:
+        for o in r.given_objects:
+            if s is o:
+                return False
+    return True
